@@ -109,6 +109,8 @@ def to_case(o):
         return "CFlag %s" % coq_bool(o.get("failures", 0) == 0)
     if k == "fuzzfail":
         return "CFlag false"
+    if k == "flag":
+        return "CFlag %s" % coq_bool(o.get("ok", False))
     if k == "bigsock":
         return "CFlag %s" % coq_bool(o["same"])
     raise ValueError(k)
